@@ -8,14 +8,15 @@ THEOREMS = [
              "not-completed staged entry of that state"},
     {"name": "C01_justification_is_permanent", "strength": "P",
      "text": "prev / ctxs.in of a started record never change (R18), so its recorded justification is permanent"},
-    {"name": "C01b_history_justified / C01b_reachable_offers_justified", "strength": "P",
-     "text": "invariant of every history of API calls from a fresh conductor (every evaluator, reruns included, calls "
-             "that raise included): every staged entry and every record either has no predecessor and is a start task of "
-             "the graph, or each of its predecessors is a completed record of an inbound task whose transition into it is "
-             "an edge of the graph and is recorded satisfied; hence every offer is so justified. Hypotheses: transition ids "
-             "unique per task (true of composed graphs; witness that it is needed) and, per event, the protocol clause "
-             "call_ok (no further completion report to a record that has decided its transitions while retries are left) -- "
-             "refuted without it by the duplicate-report witness (C01b_justified_refuted_by_duplicate_report)"},
+    {"name": "C01b_reachable_justified_always / C01b_api_justified_always / C01b_reachable_offers_justified (props/C01b.v)",
+     "strength": "F",
+     "text": "invariant of every history of API calls from a fresh conductor (every evaluator, reruns, late / duplicate / "
+             "malformed events and calls that raise included; only the injected internal retry event is excluded): every "
+             "staged entry and every record either has no predecessor and is a start task of the graph, or each of its "
+             "predecessors is a completed record of an inbound task whose transition into it is an edge of the graph and is "
+             "recorded satisfied; hence every offer is so justified. Hypothesis: transition ids unique per task (true of "
+             "composed graphs; witness that it is needed).  (Before repair D33 a per-event protocol clause was needed; the "
+             "former refuting witness is now C01b_justified_kept_by_duplicate_report)"},
     {"name": "C01b_decision_recorded_is_criteria / C01b_no_reference_unless_true / C01b_completion_ctx_shape", "strength": "F",
      "text": "'recorded satisfied' means 'the condition evaluated true on the predecessor's actual status and result': the "
              "value written is the conjunction of the truthiness of the criteria evaluated in the context made from the "
